@@ -292,6 +292,14 @@ class _Expr(ast.NodeTransformer):
     def visit_BoolOp(self, node):
         node.values = [self._truth(v) for v in node.values]
         self.generic_visit(node)
+        # (a and (b and c)) == (a and b and c): same short circuit
+        flat = []
+        for v in node.values:
+            if isinstance(v, ast.BoolOp) and type(v.op) is type(node.op):
+                flat.extend(v.values)
+            else:
+                flat.append(v)
+        node.values = flat
         return node
 
     def visit_UnaryOp(self, node):
@@ -808,6 +816,16 @@ def _norm_simple(stmts, ctx):
                     and isinstance(st.body[0].value, ast.Constant) and st.body[0].value.value is False \
                     and isinstance(nxt, ast.Return) and nxt.value is not None and i + 2 == len(stmts) and not ctx.get("final"):
                 out.append(ast.Return(value=ast.BoolOp(op=ast.And(), values=[_neg_test(st.test), nxt.value]),
+                                      lineno=st.lineno, col_offset=0))
+                changed = True
+                i += 2
+                continue
+            # if C: return E ; return False      ->      return C and E        (C certainly a bool)
+            if isinstance(st, ast.If) and not st.orelse and len(st.body) == 1 and isinstance(st.body[0], ast.Return) \
+                    and st.body[0].value is not None and isinstance(nxt, ast.Return) and isinstance(nxt.value, ast.Constant) \
+                    and nxt.value.value is False and i + 2 == len(stmts) and not ctx.get("final") \
+                    and (_total_atom(st.test) or (isinstance(st.test, ast.UnaryOp) and isinstance(st.test.op, ast.Not))):
+                out.append(ast.Return(value=ast.BoolOp(op=ast.And(), values=[st.test, st.body[0].value]),
                                       lineno=st.lineno, col_offset=0))
                 changed = True
                 i += 2
